@@ -64,7 +64,9 @@ Fixpoint ins_opcode_in (ins : list (lang * ident * Z)) (l : lang) (x : ident) : 
   end.
 Definition ins_opcode (g : genv) := ins_opcode_in (ge_ins g).
 
-Fixpoint sig_in (sigs : list (lang * Z * list (option ident))) (l : lang) (op : Z) : option (list (option ident)) :=
+Definition sigt := list (option ident * bool).   (* per parameter: enum colour, has a default *)
+
+Fixpoint sig_in (sigs : list (lang * Z * sigt)) (l : lang) (op : Z) : option sigt :=
   match sigs with
   | [] => None
   | (l', op', s) :: t => if (l' =? l) && (op' =? op) then Some s else sig_in t l op
@@ -136,29 +138,42 @@ Definition lookup_fun (g : genv) (lf : ident -> lres) (al : option lang) (x : id
 Definition lookup_var (g : genv) (lv : ident -> lres) (al : option lang) (colour : option ident) (x : ident) : res :=
   of_lres (lv x) (global_var g al colour x).
 
-(* the signature the implementation finds for a call: the enum colour of every parameter *)
-Definition callee_sig (g : genv) (lf : ident -> lres) (al : option lang) (c : callee) : option (list (option ident)) :=
+(* the signature the implementation finds for a call *)
+Definition callee_sig (g : genv) (lf : ident -> lres) (al : option lang) (c : callee) : option sigt :=
   match c with
   | CRaw op => match al with Some l => sig_of g l op | None => None end
   | CNamed o =>
       match lookup_fun g lf al (oname o) with
-      | ROk (DFunc _ n) => Some (repeat None n)
+      | ROk (DFunc _ n) => Some (repeat (None, false) n)
       | ROk (DIns l x) => match ins_opcode g l x with Some op => sig_of g l op | None => None end
       | _ => None
       end
   end.
 
-(* visit_call_args_with_signature_info: with a signature, arguments are zipped with the parameters,
-   so an argument beyond the last parameter is not visited at all -- unless the source has the
-   extra loop over the remaining arguments (generated flag [gen_visit_excess_args]; finding
-   c10-excess-args, fixes/c10-resolve-excess-call-args.diff) *)
+(* Signature::match_params_to_args: the parameters that are zipped with the arguments; parameters
+   with a default (instruction padding) are left out when the generated flag says so *)
+Definition matched (s : sigt) : sigt :=
+  if gen_zip_skips_padding then filter (fun p => negb (snd p)) s else s.
+
+(* visit_call_args_with_signature_info: with a signature, an argument is visited if it is zipped
+   with a parameter, or by the extra loop over the remaining arguments, which (generated
+   [gen_excess_mode]) does not exist / starts after as many arguments as there are parameters /
+   starts after the matched ones.  Findings c10-excess-args, c10-padding-gap. *)
+Definition arg_visited (s : sigt) (pos : nat) : bool :=
+  Nat.ltb pos (length (matched s))
+  || match gen_excess_mode with
+     | ExNone => false
+     | ExAfterParams => Nat.leb (length s) pos
+     | ExAfterMatched => true
+     end.
+
 Fixpoint visited (g : genv) (lf : ident -> lres) (al : option lang) (gs : list guard) : bool :=
   match gs with
   | [] => true
   | gd :: outer =>
       visited g lf al outer &&
       match callee_sig g lf al (g_callee gd) with
-      | Some s => gen_visit_excess_args || Nat.ltb (g_pos gd) (length s)
+      | Some s => arg_visited s (g_pos gd)
       | None => true
       end
   end.
@@ -170,7 +185,7 @@ Fixpoint colour (g : genv) (lf : ident -> lres) (al : option lang) (gs : list gu
   | [] => None
   | gd :: outer =>
       match callee_sig g lf al (g_callee gd) with
-      | Some s => if Nat.ltb (g_pos gd) (length s) then nth (g_pos gd) s None else colour g lf al outer
+      | Some s => if Nat.ltb (g_pos gd) (length (matched s)) then fst (nth (g_pos gd) (matched s) (None, false)) else colour g lf al outer
       | None => colour g lf al outer
       end
   end.
